@@ -13,9 +13,9 @@ git apply $SRC/patch.diff || { echo "PATCH DOES NOT APPLY"; git -C /repo worktre
 s1=$(cargo test --workspace --no-fail-fast --offline 2>&1 | grep -E "^test result" | awk '{p+=$4; f+=$6} END {print p" passed "f" failed"}')
 s2=$(cargo test --no-fail-fast --offline --features devices 2>&1 | grep -E "^test result" | awk '{p+=$4; f+=$6} END {print p" passed "f" failed"}')
 cp $SRC/demo.rs tests/zz_demo.rs
-d1=$(cargo test --offline --features devices --test zz_demo 2>&1 | grep -E "^test result|error(\[|:)" | head -3 | tr '\n' ' ')
+d1=$(cargo test --offline ${DEMO_FLAGS:---features devices} --test zz_demo 2>&1 | grep -E "^test result|error(\[|:)" | head -3 | tr '\n' ' ')
 git apply -R $SRC/patch.diff
-d2=$(cargo test --offline --features devices --test zz_demo 2>&1 | grep -E "^test result|error(\[|:)" | head -3 | tr '\n' ' ')
+d2=$(cargo test --offline ${DEMO_FLAGS:---features devices} --test zz_demo 2>&1 | grep -E "^test result|error(\[|:)" | head -3 | tr '\n' ' ')
 cd /
 git -C /repo worktree remove --force $W; rm -rf $W
 echo "suite(default): $s1"
@@ -36,7 +36,7 @@ src,dst,s1,s2,d1,d2=sys.argv[1:]
 try: m=json.load(open(src))
 except Exception as e: m={"note":"agent meta.json unreadable: %s"%e}
 m["confirmed_by_harness_author"]={"base_commit":"HEAD of /repo at validation","suite_default_with_change":s1,"suite_devices_with_change":s2,"demo_with_change":d1,"demo_without_change":d2,
- "commands":["git apply patch.diff","cargo test --workspace --no-fail-fast --offline","cargo test --no-fail-fast --offline --features devices","cargo test --offline --features devices --test zz_demo","git apply -R patch.diff","cargo test --offline --features devices --test zz_demo"]}
+ "commands":["git apply patch.diff","cargo test --workspace --no-fail-fast --offline","cargo test --no-fail-fast --offline --features devices","cargo test --offline ${DEMO_FLAGS:---features devices} --test zz_demo","git apply -R patch.diff","cargo test --offline ${DEMO_FLAGS:---features devices} --test zz_demo"]}
 json.dump(m,open(dst,"w"),indent=1)
 PY
   echo "KEPT $D"
